@@ -1462,6 +1462,10 @@ class TypedDictValue(GenericValue):
         return all(entry.required for entry in self.items.values())
 
     def can_assign(self, other: Value, ctx: CanAssignContext) -> CanAssign:
+        if isinstance(other, AnnotatedValue):
+            # Apply the TypedDict rules below to the underlying value instead of
+            # falling back to the rules for dict[str, ...].
+            return other.can_be_assigned(self, ctx)
         if isinstance(other, DictIncompleteValue):
             bounds_maps = []
             for key, entry in self.items.items():
